@@ -144,6 +144,17 @@ func RunC19(c *Ctx) {
 				big := make([]byte, 5, 3*len(d)+64)
 				return func() error { _, _, e := rjson.ReadStringBytes(d, big); return e }, true
 			}},
+			{"UnescapeStringContent(non-empty dst)", func(d []byte) (func() error, bool) {
+				p0 := refmodel.SkipWS(d, 0)
+				_, end, ok := refmodel.ScanString(d, p0)
+				if !ok {
+					return nil, false
+				}
+				content := d[p0+1 : end-1]
+				// three bytes already in the destination, spare capacity exactly the input length
+				buf := make([]byte, 3, 3+len(content))
+				return func() error { _, _, e := rjson.UnescapeStringContent(content, buf); return e }, true
+			}},
 			{"UnescapeStringContent", func(d []byte) (func() error, bool) {
 				p0 := refmodel.SkipWS(d, 0)
 				_, end, ok := refmodel.ScanString(d, p0)
@@ -286,6 +297,20 @@ func RunC19(c *Ctx) {
 		doc.Desc = fmt.Sprintf("W3Valid(seed=%d,index=%d)", c.Seed, i)
 		sink(doc)
 	}
+	// every nesting depth 1..300 and the neighbourhoods of larger powers of two: stack growth in
+	// chunks can go wrong exactly at a chunk boundary (seeded change C19r3-m1: depths 64, 128, ...)
+	sweep := []int{}
+	for dp := 1; dp <= 300; dp++ {
+		sweep = append(sweep, dp)
+	}
+	for _, pw := range []int{512, 1024, 2048, 4096, 8192} {
+		sweep = append(sweep, pw-1, pw, pw+1)
+	}
+	workload.W4(sweep, [][]int{{0}, {2}, {0, 2}, {1, 3}}, []string{"", "0"}, func(cs *h.Case) {
+		if cs.P[3] == 0 {
+			sink(cs)
+		}
+	})
 	workload.W4([]int{3, 100, 9999, 10000}, workload.NestPatterns, []string{"", "0", `"s"`}, func(cs *h.Case) {
 		if cs.P[3] == 0 || cs.P[3] == 4 { // closed variants
 			sink(cs)
